@@ -704,7 +704,7 @@ func ruleC18(c *Ctx) {
 	c.rule("C18-R1", "ID = constant prefix starting with a letter or '_' + (*UUID).String() of a uuid.NewV4() called in the same builder activation; exactly one ID attribute per message")
 	c.rule("C18-R2", "NewV4 fills all 16 bytes of a fresh array from crypto/rand.Read; a read error is fatal (panic), never ignored; the uuid package imports no other randomness source")
 	c.rule("C18-R3", "version / variant transforms evaluated over all 256 byte values: byte 6 -> 0100xxxx, byte 8 -> 10xxxxxx with the other bits preserved; no other byte is written after the read")
-	c.rule("C18-R4", "String(): the returned text is the layout hex(u[0:4]) '-' hex(u[4:6]) '-' hex(u[6:8]) '-' hex(u[8:10]) '-' hex(u[10:16]) in lower-case hex, produced by Sprintf(%x…), hex.Encode into a fully covered buffer, or hex.EncodeToString concatenation")
+	c.rule("C18-R4", "String(): the returned text is the layout hex(u[0:4]) '-' hex(u[4:6]) '-' hex(u[6:8]) '-' hex(u[8:10]) '-' hex(u[10:16]) in lower-case hex, produced by Sprintf(%x… / %0Nx of big-endian integers), hex.Encode into a fully covered buffer, hex.EncodeToString concatenation, a writer filled piece by piece, or an append chain of digit-table lookups evaluated over all 256 values per byte")
 	n := 0
 	for _, br := range builderRuns(c) {
 		ds, res := br.ds, br.res
@@ -1119,14 +1119,42 @@ func uuidLayout(t *Terminal, recv string) (string, string) {
 				segs = append(segs, laySeg{lit: true, ch: f[i]})
 				continue
 			}
-			if i+1 >= len(f) || f[i+1] != 'x' {
-				return "", "format verb other than %x in " + fmt.Sprintf("%q", f)
+			// %x of a slice of u, or %0Nx of the big-endian integer read from exactly N/2 bytes of u
+			width := int64(-1)
+			j := i + 1
+			if j < len(f) && f[j] == '0' {
+				width = 0
+				for j++; j < len(f) && f[j] >= '0' && f[j] <= '9'; j++ {
+					width = width*10 + int64(f[j]-'0')
+				}
 			}
-			i++
+			if j >= len(f) || f[j] != 'x' {
+				return "", "format verb other than %x / %0Nx in " + fmt.Sprintf("%q", f)
+			}
+			i = j
 			if ai >= len(args) {
 				return "", "more verbs than operands"
 			}
-			lo, hi, ok := sliceOfU(args[ai], recv)
+			arg := stripIface(args[ai])
+			if width >= 0 {
+				cv, isCall := arg.(*CallV)
+				bits := map[string]int64{"Uint16": 2, "Uint32": 4, "Uint64": 8}
+				var n int64
+				if isCall && strings.HasPrefix(shortName(cv.Callee), "(encoding/binary.bigEndian).") && len(cv.Args) == 2 {
+					n = bits[strings.TrimPrefix(shortName(cv.Callee), "(encoding/binary.bigEndian).")]
+				}
+				if n == 0 {
+					return "", "zero-padded verb over " + ap(arg) + ", which is not a big-endian integer read from the UUID"
+				}
+				lo, hi, ok := sliceOfU(cv.Args[1], recv)
+				if !ok || hi-lo != n || width != 2*n {
+					return "", fmt.Sprintf("%%0%dx over %s does not render %d bytes as %d digits", width, ap(arg), n, 2*n)
+				}
+				ai++
+				segs = append(segs, laySeg{lo: lo, hi: hi})
+				continue
+			}
+			lo, hi, ok := sliceOfU(arg, recv)
 			if !ok {
 				return "", "operand " + ap(args[ai]) + " is not a constant slice of the UUID"
 			}
